@@ -1,12 +1,61 @@
+//! hx-codec: correspondence + property-oracle harness for C05 (codec round trip, exact sizes) and
+//! C04 (safe parsing of arbitrary bytes), driving the real `star_frame::unsize` code.
+mod c04;
+mod c05;
+mod exec;
 mod family;
+mod gen;
 mod sx;
 mod ux;
 #[allow(unused_imports)]
 pub use family::StarFrameDeclaredProgram;
 
+use hx_common::Args;
+use std::path::PathBuf;
+
+/// Cases of `/verif/corpus/<prop>/*.replay` (sorted by file name), run first on every check.
+pub fn corpus_cases(prop: &str) -> Vec<Vec<String>> {
+    let dir = PathBuf::from(std::env::var("VERIF_DIR").unwrap_or_else(|_| "/verif".into())).join("corpus").join(prop);
+    let mut files: Vec<PathBuf> = match std::fs::read_dir(&dir) {
+        Ok(rd) => rd.filter_map(|e| e.ok().map(|e| e.path())).filter(|p| p.extension().map(|x| x == "replay").unwrap_or(false)).collect(),
+        Err(_) => vec![],
+    };
+    files.sort();
+    let mut cases: Vec<Vec<String>> = vec![];
+    for f in files {
+        let text = std::fs::read_to_string(&f).unwrap_or_default();
+        for l in text.lines() {
+            let l = l.trim_end();
+            if l.is_empty() || l.starts_with('#') {
+                continue;
+            }
+            if l.starts_with("case") || cases.is_empty() {
+                cases.push(vec![]);
+            }
+            cases.last_mut().unwrap().push(l.to_string());
+        }
+    }
+    cases
+}
+
 fn main() {
-    let reg = family::registry();
-    for (n, t) in &reg {
-        println!("{n} {}", t.shape().show());
+    let argv: Vec<String> = std::env::args().collect();
+    if argv.get(1).map(|s| s == "__child").unwrap_or(false) {
+        let resume = argv.get(4).and_then(|s| s.parse().ok()).unwrap_or(0);
+        c04::child(&PathBuf::from(&argv[2]), &PathBuf::from(&argv[3]), resume);
+        return;
+    }
+    if argv.get(1).map(|s| s == "shapes").unwrap_or(false) {
+        for (n, t) in family::registry().iter() {
+            println!("{n} {}", t.shape().show());
+        }
+        return;
+    }
+    hx_common::quiet_panics();
+    let args = Args::parse();
+    match args.prop.as_str() {
+        "C05" => c05::main(&args),
+        "C04" => c04::main(&args),
+        other => panic!("hx-codec does not handle {other}"),
     }
 }
